@@ -94,6 +94,17 @@ CLAIMED.update({
             "grammar reader + abstract interpretation of the visitors + who-may-call / typestate of the parse entry points"),
 })
 
+CLAIMED.update({
+    "C19": ("§4 C19", "decides structural clauses: REV.classify / REV.triple-positions (reference, fast and incremental compilation against one "
+                      "specification, under every assignment of the classification tests of two concrete conditionals over generic or two "
+                      "concrete worlds), MASK.literal / MASK.positions (both copies), REV.incremental (eight add/remove sequences against the "
+                      "specification for the current conditionals), REV.one-term, REV.fixed-everywhere (known finding F17a/F17b), REV.relation, "
+                      "C.minima-roles, C.empty-minimum, CHECK.three-way, MODEL.extract, REV.entry (wiring of both entry points and of to_csp). "
+                      "Not decided: existence, Pareto minimality, the relation to c-representations, z3",
+            "abstract interpretation with two-witness instantiation + finite evaluation over all assignments of the uninterpreted "
+            "classification tests + canonical linear forms"),
+})
+
 NA = {
     "C08": "inclusion between operators is a relation between answers of different operators on the same input that follows from theorems "
            "about their definitions; it has no code-shaped clause of its own - its anchored mechanism (same partition, same "
